@@ -24,6 +24,7 @@ Definition op_of (g : list Z) : option op :=
   | 15 => Some (FrameByHeaderId (natz (a 1%nat)) (a 2%nat))
   | 16 => Some (SetIdInplace (natz (a 1%nat)) (a 2%nat) (a 3%nat))
   | 17 => Some (ChangeFrameId (natz (a 1%nat)) (a 2%nat) (zb (a 3%nat)) (a 4%nat))
+  | 18 => Some (SetHeaderId (natz (a 1%nat)) (a 2%nat) (optz (a 3%nat)))
   | _ => None
   end.
 Fixpoint ops_of (gs : io) : option (list op) :=
